@@ -1,39 +1,540 @@
 package main
 
-// Engine A — symbolic integers decoded from hostile input (stage 2).
+// Engine A — symbolic integers decoded from hostile input.
+//
 // A decoded count is a symbol with an interval; values derived from it by
-// constant multiplication/addition stay linear in the symbol; comparisons
-// against known values refine the interval on each side of the branch.
+// adding or multiplying with constants stay linear in the symbol (A*sym+B) as
+// long as the operation cannot wrap in its static type — if it can, the result
+// is a fresh, unconstrained symbol, which is exactly what a wrapped guard is
+// worth.  Comparisons against known values are decided from the interval when
+// possible and refine it on each side of the branch otherwise.  No constraint
+// ever leaves this table: there is no solver.
 
 import (
+	"fmt"
+	"go/token"
+	"go/types"
+	"math"
+
 	"golang.org/x/tools/go/ssa"
 )
 
 type symInfo struct {
-	Lo, Hi int64
-	Bits   int
+	Lo, Hi  int64 // closed interval (Hi saturates at MaxInt64)
+	Bounded bool  // known to be at most proportional to the input length
+	Inexact bool  // a branch on this symbol was taken that the interval does not capture
 }
 
-func (it *Interp) symBinop(s *State, x *ssa.BinOp, a, b IntV) (AV, bool) { return nil, false }
+func (s *State) sym(id int) *symInfo {
+	if s.syms == nil {
+		s.syms = map[int]*symInfo{}
+	}
+	si := s.syms[id]
+	if si == nil {
+		si = &symInfo{Lo: 0, Hi: math.MaxInt64}
+		s.syms[id] = si
+	}
+	return si
+}
 
-func (it *Interp) symIndexCheck(s *State, x *ssa.IndexAddr, idx IntV, n int) bool { return false }
+func typeRange(t types.Type) (int64, int64) {
+	b, ok := t.Underlying().(*types.Basic)
+	if !ok {
+		return math.MinInt64, math.MaxInt64
+	}
+	switch b.Kind() {
+	case types.Int8:
+		return math.MinInt8, math.MaxInt8
+	case types.Int16:
+		return math.MinInt16, math.MaxInt16
+	case types.Int32:
+		return math.MinInt32, math.MaxInt32
+	case types.Uint8:
+		return 0, math.MaxUint8
+	case types.Uint16:
+		return 0, math.MaxUint16
+	case types.Uint32:
+		return 0, math.MaxUint32
+	case types.Uint, types.Uint64, types.Uintptr:
+		return 0, math.MaxInt64 // saturated
+	}
+	return math.MinInt64, math.MaxInt64
+}
 
-func (it *Interp) symSliceCheck(s *State, x *ssa.Slice, lo, hi IntV, lok, hok bool, l, h int64, n, c int) bool {
+func (it *Interp) freshSym(s *State, lo, hi int64, opq bool) IntV {
+	it.nextSym++
+	id := it.nextSym
+	si := s.sym(id)
+	si.Lo, si.Hi = lo, hi
+	return IntV{Sym: id, A: 1, B: 0, Opq: opq}
+}
+
+func (it *Interp) freshFreeInt(s *State, bits int) AV {
+	hi := int64(math.MaxInt64)
+	if bits < 63 {
+		hi = int64(1)<<uint(bits) - 1
+	}
+	return it.freshSym(s, 0, hi, false)
+}
+
+// bounds of a (possibly symbolic) integer in state s.
+func (s *State) bounds(v IntV) (lo, hi int64, ok bool) {
+	if v.Known {
+		return v.V, v.V, true
+	}
+	if v.Sym <= 0 {
+		return 0, 0, false
+	}
+	si := s.sym(v.Sym)
+	mul := func(a, b int64) int64 {
+		if a == 0 || b == 0 {
+			return 0
+		}
+		r := a * b
+		if r/b != a || (a == math.MaxInt64 || b == math.MaxInt64) {
+			if (a > 0) == (b > 0) {
+				return math.MaxInt64
+			}
+			return math.MinInt64
+		}
+		return r
+	}
+	add := func(a, b int64) int64 {
+		r := a + b
+		if b > 0 && r < a {
+			return math.MaxInt64
+		}
+		if b < 0 && r > a {
+			return math.MinInt64
+		}
+		return r
+	}
+	l, h := mul(v.A, si.Lo), mul(v.A, si.Hi)
+	if v.A < 0 {
+		l, h = h, l
+	}
+	return add(l, v.B), add(h, v.B), true
+}
+
+func (it *Interp) symBinop(s *State, x *ssa.BinOp, a, b IntV) (AV, bool) {
+	if a.Sym <= 0 && b.Sym <= 0 {
+		return nil, false
+	}
+	opq := a.Opq || b.Opq
+	tlo, thi := typeRange(x.Type())
+	fits := func(lo, hi int64) bool { return lo >= tlo && hi <= thi && hi != math.MaxInt64 && lo != math.MinInt64 }
+	fresh := func() AV {
+		// wrapped or non-linear: an unconstrained value of the result type
+		lo, hi := tlo, thi
+		if lo < 0 {
+			return IntV{Opq: opq}
+		}
+		v := it.freshSym(s, lo, hi, opq)
+		return v
+	}
+	alo, ahi, _ := s.bounds(a)
+	blo, bhi, _ := s.bounds(b)
+	switch x.Op {
+	case token.ADD, token.SUB:
+		sign := int64(1)
+		if x.Op == token.SUB {
+			sign = -1
+		}
+		switch {
+		case a.Sym > 0 && b.Known:
+			r := IntV{Sym: a.Sym, A: a.A, B: a.B + sign*b.V, Opq: opq}
+			if lo, hi, _ := s.bounds(r); fits(lo, hi) {
+				return r, true
+			}
+			return fresh(), true
+		case a.Known && b.Sym > 0:
+			r := IntV{Sym: b.Sym, A: sign * b.A, B: a.V + sign*b.B, Opq: opq}
+			if lo, hi, _ := s.bounds(r); fits(lo, hi) {
+				return r, true
+			}
+			return fresh(), true
+		case a.Sym > 0 && b.Sym > 0 && a.Sym == b.Sym:
+			r := IntV{Sym: a.Sym, A: a.A + sign*b.A, B: a.B + sign*b.B, Opq: opq}
+			if r.A == 0 {
+				return intOf(r.B), true
+			}
+			if lo, hi, _ := s.bounds(r); fits(lo, hi) {
+				return r, true
+			}
+			return fresh(), true
+		}
+		// two different symbols: keep an interval only
+		if a.Sym > 0 && b.Sym > 0 {
+			var lo, hi int64
+			if sign > 0 {
+				lo, hi = alo+blo, ahi+bhi
+				if hi < ahi {
+					hi = math.MaxInt64
+				}
+			} else {
+				lo, hi = alo-bhi, ahi-blo
+			}
+			if fits(lo, hi) && lo >= 0 {
+				v := it.freshSym(s, lo, hi, opq)
+				if s.sym(a.Sym).Bounded && s.sym(b.Sym).Bounded {
+					s.sym(v.Sym).Bounded = true
+				}
+				return v, true
+			}
+			return fresh(), true
+		}
+	case token.MUL:
+		var sv IntV
+		var k int64
+		switch {
+		case a.Sym > 0 && b.Known:
+			sv, k = a, b.V
+		case a.Known && b.Sym > 0:
+			sv, k = b, a.V
+		default:
+			return fresh(), true
+		}
+		if k == 0 {
+			return intOf(0), true
+		}
+		r := IntV{Sym: sv.Sym, A: sv.A * k, B: sv.B * k, Opq: opq}
+		if lo, hi, _ := s.bounds(r); fits(lo, hi) {
+			return r, true
+		}
+		return fresh(), true
+	case token.SHR, token.QUO:
+		if a.Sym > 0 && b.Known && b.V > 0 && alo >= 0 {
+			var lo, hi int64
+			if x.Op == token.SHR {
+				if b.V >= 63 {
+					return intOf(0), true
+				}
+				lo, hi = alo>>uint(b.V), ahi>>uint(b.V)
+			} else {
+				lo, hi = alo/b.V, ahi/b.V
+			}
+			v := it.freshSym(s, lo, hi, opq)
+			if s.sym(a.Sym).Bounded {
+				s.sym(v.Sym).Bounded = true
+			}
+			return v, true
+		}
+		if b.Sym > 0 && (blo <= 0 && bhi >= 0) && x.Op == token.QUO {
+			// possible division by zero: not certain
+		}
+		return fresh(), true
+	case token.AND:
+		if a.Sym > 0 && b.Known && b.V >= 0 {
+			hi := b.V
+			if ahi < hi && alo >= 0 {
+				hi = ahi
+			}
+			return it.freshSym(s, 0, hi, opq), true
+		}
+		if b.Sym > 0 && a.Known && a.V >= 0 {
+			return it.freshSym(s, 0, a.V, opq), true
+		}
+		return fresh(), true
+	case token.REM:
+		if a.Sym > 0 && b.Known && b.V > 0 && alo >= 0 {
+			return it.freshSym(s, 0, b.V-1, opq), true
+		}
+		return fresh(), true
+	case token.SHL, token.OR, token.XOR, token.AND_NOT:
+		if x.Op == token.SHL && a.Sym > 0 && b.Known && b.V >= 0 && b.V < 62 {
+			r := IntV{Sym: a.Sym, A: a.A << uint(b.V), B: a.B << uint(b.V), Opq: opq}
+			if lo, hi, _ := s.bounds(r); fits(lo, hi) {
+				return r, true
+			}
+		}
+		return fresh(), true
+	case token.EQL, token.NEQ, token.LSS, token.LEQ, token.GTR, token.GEQ:
+		okA := a.Known || a.Sym > 0
+		okB := b.Known || b.Sym > 0
+		if !okA || !okB {
+			return BoolV{T: true, F: true, Opq: opq}, true
+		}
+		if a.Sym > 0 && b.Sym > 0 && a.Sym == b.Sym && a.A == b.A {
+			// same symbol, same slope: compare offsets
+			d := a.B - b.B
+			return boolOf(cmpInt(x.Op, d, 0)), true
+		}
+		var may [2]bool // [false,true] possible
+		switch x.Op {
+		case token.LSS:
+			may[1], may[0] = alo < bhi, ahi >= blo
+		case token.LEQ:
+			may[1], may[0] = alo <= bhi, ahi > blo
+		case token.GTR:
+			may[1], may[0] = ahi > blo, alo <= bhi
+		case token.GEQ:
+			may[1], may[0] = ahi >= blo, alo < bhi
+		case token.EQL:
+			may[1], may[0] = !(ahi < blo || alo > bhi), !(alo == ahi && blo == bhi && alo == blo)
+		case token.NEQ:
+			may[0], may[1] = !(ahi < blo || alo > bhi), !(alo == ahi && blo == bhi && alo == blo)
+		}
+		return BoolV{T: may[1], F: may[0], Opq: opq}, true
+	}
+	return nil, false
+}
+
+func cmpInt(op token.Token, a, b int64) bool {
+	switch op {
+	case token.EQL:
+		return a == b
+	case token.NEQ:
+		return a != b
+	case token.LSS:
+		return a < b
+	case token.LEQ:
+		return a <= b
+	case token.GTR:
+		return a > b
+	case token.GEQ:
+		return a >= b
+	}
 	return false
 }
 
-func (it *Interp) symConvert(s *State, x *ssa.Convert, v IntV) (AV, bool) { return nil, false }
+func (it *Interp) symConvert(s *State, x *ssa.Convert, v IntV) (AV, bool) {
+	if v.Sym <= 0 {
+		return nil, false
+	}
+	lo, hi, _ := s.bounds(v)
+	tlo, thi := typeRange(x.Type())
+	if lo >= tlo && hi <= thi {
+		return v, true
+	}
+	if tlo < 0 {
+		return IntV{Opq: v.Opq}, true
+	}
+	return it.freshSym(s, tlo, thi, v.Opq), true
+}
 
-func (it *Interp) symRefine(s *State, fr *Frame, x *ssa.BinOp, taken bool) {}
+// symRefine narrows the interval of the symbol on the taken side of a comparison.
+func (it *Interp) symRefine(s *State, fr *Frame, x *ssa.BinOp, taken bool) {
+	av, ok1 := it.val(fr, x.X).(IntV)
+	bv, ok2 := it.val(fr, x.Y).(IntV)
+	if !ok1 || !ok2 {
+		return
+	}
+	op := x.Op
+	if !taken {
+		op = map[token.Token]token.Token{token.LSS: token.GEQ, token.GEQ: token.LSS, token.LEQ: token.GTR, token.GTR: token.LEQ, token.EQL: token.NEQ, token.NEQ: token.EQL}[op]
+	}
+	if op == 0 {
+		return
+	}
+	// plain unknown ints: equality with a constant makes them known
+	if !av.Known && av.Sym <= 0 && bv.Known && op == token.EQL {
+		it.setInt(s, fr, x.X, bv)
+		return
+	}
+	if !bv.Known && bv.Sym <= 0 && av.Known && op == token.EQL {
+		it.setInt(s, fr, x.Y, av)
+		return
+	}
+	flip := map[token.Token]token.Token{token.LSS: token.GTR, token.GTR: token.LSS, token.LEQ: token.GEQ, token.GEQ: token.LEQ, token.EQL: token.EQL, token.NEQ: token.NEQ}
+	if av.Known && bv.Sym > 0 {
+		av, bv = bv, av
+		op = flip[op]
+		x = nil
+	}
+	if av.Sym <= 0 {
+		return
+	}
+	si := s.sym(av.Sym)
+	if !bv.Known {
+		// symbol vs symbol: a*X+b <= c*Y+d with Y input-bounded makes X input-bounded
+		if bv.Sym > 0 && bv.Sym != av.Sym {
+			sj := s.sym(bv.Sym)
+			switch {
+			case (op == token.LSS || op == token.LEQ) && av.A >= 1 && sj.Bounded:
+				si.Bounded = true
+			case (op == token.GTR || op == token.GEQ) && bv.A >= 1 && si.Bounded:
+				sj.Bounded = true
+			default:
+				si.Inexact = true
+				sj.Inexact = true
+			}
+		} else {
+			si.Inexact = true
+		}
+		return
+	}
+	// A*sym + B  op  K   ->   sym op' (K-B)/A
+	K := bv.V - av.B
+	A := av.A
+	if A == 0 {
+		return
+	}
+	if A < 0 {
+		A, K = -A, -K
+		op = flip[op]
+	}
+	floorDiv := func(a, b int64) int64 {
+		q := a / b
+		if (a%b != 0) && ((a < 0) != (b < 0)) {
+			q--
+		}
+		return q
+	}
+	ceilDiv := func(a, b int64) int64 { return -floorDiv(-a, b) }
+	switch op {
+	case token.LSS: // A*s < K  -> s <= ceil(K/A)-1
+		if h := ceilDiv(K, A) - 1; h < si.Hi {
+			si.Hi = h
+		}
+	case token.LEQ:
+		if h := floorDiv(K, A); h < si.Hi {
+			si.Hi = h
+		}
+	case token.GTR:
+		if l := floorDiv(K, A) + 1; l > si.Lo {
+			si.Lo = l
+		}
+	case token.GEQ:
+		if l := ceilDiv(K, A); l > si.Lo {
+			si.Lo = l
+		}
+	case token.EQL:
+		if K%A == 0 {
+			v := K / A
+			si.Lo, si.Hi = v, v
+		}
+	case token.NEQ:
+		if K%A == 0 {
+			v := K / A
+			if si.Lo == v {
+				si.Lo++
+			} else if si.Hi == v {
+				si.Hi--
+			} else {
+				// a hole in the middle is not representable; harmless (still a superset)
+			}
+		}
+	}
+}
+
+// setInt makes an unknown int known in the environment and in the memory it
+// was loaded from.
+func (it *Interp) setInt(s *State, fr *Frame, v ssa.Value, k IntV) {
+	if _, isConst := v.(*ssa.Const); isConst {
+		return
+	}
+	fr.env[v] = k
+	switch x := v.(type) {
+	case *ssa.UnOp:
+		if x.Op == token.MUL {
+			if p, ok := it.val(fr, x.X).(PtrV); ok && !p.Nil && !p.Top {
+				if cell, ok := s.heap[p.Cell]; ok && !hasUnknownIndex(p.Path) {
+					s.heap[p.Cell] = writePath(cell, p.Path, k)
+				}
+			}
+		}
+	case *ssa.Convert:
+		// byte(x) == c etc.: propagate through value-preserving conversions
+		if src, ok := it.val(fr, x.X).(IntV); ok && !src.Known && src.Sym <= 0 {
+			it.setInt(s, fr, x.X, k)
+		}
+	}
+}
+
+func hasUnknownIndex(path []int) bool {
+	for _, i := range path {
+		if i < 0 {
+			return true
+		}
+	}
+	return false
+}
+
+// symIndexCheck: is an index certain to be out of range for a slice of length n?
+func (it *Interp) symIndexCheck(s *State, x *ssa.IndexAddr, idx IntV, n int) bool {
+	if idx.Sym <= 0 {
+		return false
+	}
+	lo, hi, _ := s.bounds(idx)
+	if lo >= int64(n) || hi < 0 {
+		it.fault(s, "index", x, fmt.Sprintf("index in [%d,%d] out of range for %s of length %d", lo, hi, operandText(x.X), n))
+		return true
+	}
+	// execution continues only when the index was in range
+	it.assume(s, idx, token.LSS, int64(n))
+	return false
+}
+
+// assume narrows a symbolic value after an operation that would have faulted otherwise.
+func (it *Interp) assume(s *State, v IntV, op token.Token, k int64) {
+	if v.Sym <= 0 || v.A <= 0 {
+		return
+	}
+	si := s.sym(v.Sym)
+	K := k - v.B
+	switch op {
+	case token.LSS:
+		h := (K - 1) / v.A
+		if K-1 < 0 {
+			h = -1
+		}
+		if h < si.Hi && h >= si.Lo {
+			si.Hi = h
+		}
+	case token.LEQ:
+		h := K / v.A
+		if h < si.Hi && h >= si.Lo {
+			si.Hi = h
+		}
+	}
+}
+
+func (it *Interp) symSliceCheck(s *State, x *ssa.Slice, loV, hiV IntV, lok, hok bool, lo, hi int64, n, c int) bool {
+	// a symbolic low bound that is certainly beyond the capacity, or a symbolic
+	// high bound certainly beyond it
+	if !lok && loV.Sym > 0 {
+		l, _, _ := s.bounds(loV)
+		if l > int64(c) {
+			it.fault(s, "slice", x, fmt.Sprintf("slice %s[%s:]: low bound is at least %d, capacity %d", operandText(x.X), boundText(x.Low), l, c))
+			return true
+		}
+		it.assume(s, loV, token.LEQ, int64(c))
+	}
+	if !hok && hiV.Sym > 0 && x.High != nil {
+		l, _, _ := s.bounds(hiV)
+		if l > int64(c) {
+			it.fault(s, "slice", x, fmt.Sprintf("slice %s[:%s]: high bound is at least %d, capacity %d", operandText(x.X), boundText(x.High), l, c))
+			return true
+		}
+		it.assume(s, hiV, token.LEQ, int64(c))
+	}
+	return false
+}
 
 func (it *Interp) symLen(s *State, v AV) (AV, bool) { return nil, false }
 
 func (it *Interp) symRequireLen(s *State, call *ssa.Call, sv SliceV, n int, what string) {}
 
-func (it *Interp) freshFreeInt(s *State, bits int) AV { return IntV{} }
-
-func (it *Interp) allocCheck(s *State, x *ssa.MakeSlice, sz, cp IntV) string { return "" }
-
-func (it *Interp) modelDecoders(s *State, fr *Frame, call *ssa.Call, name string, args []AV) (AV, bool) {
-	return nil, false
+// allocCheck: an allocation whose size the attacker controls must stay
+// proportional to the input.  Called for every make([]T, n, c).
+func (it *Interp) allocCheck(s *State, x *ssa.MakeSlice, sz, cp IntV) string {
+	if it.allocLimit == nil {
+		return ""
+	}
+	v := sz
+	if cp.Known || cp.Sym > 0 {
+		v = cp
+	}
+	if v.Known {
+		return it.allocLimit(v.V, x, s)
+	}
+	if v.Sym <= 0 {
+		return ""
+	}
+	si := s.sym(v.Sym)
+	if si.Bounded || si.Inexact {
+		return ""
+	}
+	_, hi, _ := s.bounds(v)
+	return it.allocLimit(hi, x, s)
 }
